@@ -567,10 +567,11 @@ func matchFilter(filter Filter, value interface{}) (bool, interface{}, error) {
 		}
 		// We support returning a single capture group;
 		// - If there's a capture group, return it
-		// - If there's no capture group, return the whole match
+		// - If there's no capture group, return the whole value. Not just the part that was matched: patterns aren't
+		//   anchored, so that typically is just a part of the value (e.g. "did:web:" for pattern "^did:web:").
 		// - If there's multiple capture groups, return an error
 		if len(match.Groups()) == 1 {
-			return true, string(match.Capture.Runes()), nil
+			return true, stringValue, nil
 		} else if len(match.Groups()) == 2 {
 			return true, string(match.Groups()[1].Runes()), nil
 		} else {
